@@ -384,6 +384,42 @@ pub fn run_regs(out: &mut Out, seed: u64, _n: u64) {
     }
     let d7mask = Dr7Value::from_bits_truncate(u64::MAX).bits();
     let d7flags = Dr7Flags::all().bits();
+    // DR7 fields written are the fields read back (typed write, typed read, field accessors)
+    {
+        use x86_64::registers::debug::{BreakpointCondition, BreakpointSize, DebugAddressRegisterNumber};
+        let conds = [BreakpointCondition::InstructionExecution, BreakpointCondition::DataWrites, BreakpointCondition::IoReadsWrites, BreakpointCondition::DataReadsWrites];
+        let sizes = [BreakpointSize::Length1B, BreakpointSize::Length2B, BreakpointSize::Length8B, BreakpointSize::Length4B];
+        let nums = [DebugAddressRegisterNumber::Dr0, DebugAddressRegisterNumber::Dr1, DebugAddressRegisterNumber::Dr2, DebugAddressRegisterNumber::Dr3];
+        for k in 0..48u64 {
+            let mut v = Dr7Value::from_bits_truncate(0);
+            let mut want: Vec<i64> = Vec::new();
+            for (i, n) in nums.iter().enumerate() {
+                let (c, z) = ((k as usize + i) % 4, (k as usize / 4 + 2 * i) % 4);
+                v.set_condition(*n, conds[c]);
+                v.set_size(*n, sizes[z]);
+                want.push(c as i64);
+                want.push(z as i64);
+            }
+            let fl = r.next() & d7flags;
+            v.insert_flags(Dr7Flags::from_bits_retain(fl));
+            set(Reg::Dr(7), r.next() & !d7mask);
+            cpu::drain();
+            let got = catch(|| {
+                Dr7::write(v);
+                let back = Dr7::read();
+                let mut g: Vec<i64> = Vec::new();
+                for n in nums.iter() {
+                    g.push(back.condition(*n) as u8 as i64);
+                    g.push(back.size(*n) as u8 as i64);
+                }
+                (g, back.flags().bits())
+            });
+            cpu::drain();
+            let (g, f) = got.unwrap_or((vec![-1], 0));
+            // conditions are numbered 0..3 as in the manuals; sizes by their two-bit encoding
+            out.emit(Ev::new("dr7_rt").ints("want", &want).ints("got", &g).w("flags", fl).w("got_flags", f));
+        }
+    }
     for pre in contents(r, d7mask) {
         call(out, Call { api: "Dr7::read", reg: Reg::Dr(7), pre, mask: d7mask, p: [0; 4] }, || Ok(vec![Dr7::read().bits()]));
         call(out, Call { api: "Dr7::read_raw", reg: Reg::Dr(7), pre, mask: d7mask, p: [0; 4] }, || Ok(vec![Dr7::read_raw()]));
